@@ -53,6 +53,13 @@ def blocks(M, Nr, Nt):
             for k in range(len(Nr))]
 
 
+# conditioning of the desired-signal inner product u^H H f of the LAST oracle
+# call, per (user, stream): sum |u||H||f| / |u^H H f|.  A stream whose signal
+# survives only through cancellation (SINR of 1e-11 ...) is computed by ANY
+# double-precision implementation with a relative error of eps * this factor.
+SIGNAL_COND = {}
+
+
 def oracle_sinr(Hkj, Hext_k, F, U, noise, pe):
     """Hkj[k][j]: effective link matrices; Hext_k[k]: (Nr_k x NtE_total) or
     None; F[j]: Nt_j x Ns_j (power included); U[k]: Nr_k x Ns_k (u^H applied)."""
@@ -69,6 +76,9 @@ def oracle_sinr(Hkj, Hext_k, F, U, noise, pe):
                 for dd in range(F[j].shape[1]):
                     if j == k and dd == l:
                         sig = g[dd]
+                        SIGNAL_COND[(k, l)] = float(
+                            np.abs(u) @ np.abs(Hkj[k][j]) @ np.abs(F[j][:, dd])) / \
+                            max(math.sqrt(sig), 1e-300)
                     else:
                         interf += g[dd]
             den = interf
@@ -97,6 +107,9 @@ def oracle_jp(Hk, Hext_k, F, U, noise, pe):
                 for dd in range(F[j].shape[1]):
                     if j == k and dd == l:
                         sig = g[dd]
+                        SIGNAL_COND[(k, l)] = float(
+                            np.abs(u) @ np.abs(Hk[k]) @ np.abs(F[j][:, dd])) / \
+                            max(math.sqrt(sig), 1e-300)
                     else:
                         interf += g[dd]
             den = interf
@@ -117,7 +130,10 @@ def cmp_sinr(ctx, monitor, cls, got, want, nterms, detail):
         return
     for k, (g, w) in enumerate(zip(got, want)):
         g = np.asarray(g, dtype=float)
-        tol = 256 * EPS * nterms * (1 + w) * w + 1e-300
+        cond = np.array([min(SIGNAL_COND.get((k, l), 1.0), 1e8) for l in range(w.size)])
+        # 256 eps n (1 + SINR) for well-conditioned terms, plus twice the
+        # first-order bound 2 n eps cond of the desired-signal inner product
+        tol = EPS * nterms * (256 * (1 + w) + 4 * cond) * w + 1e-300
         ratio = float(np.max(np.abs(g - w) / tol)) if w.size else 0.0
         ctx.stat(monitor, ratio)
         ctx.ev(monitor, ratio <= 1.0, cls=cls, n=w.size,
